@@ -270,12 +270,28 @@ private:
 
     std::optional<DFS::SectorBuffer> read_block(unsigned long lba) override
     {
-      if (lba >= sectors_.size())
+      if (geom_.sectors == 0 || geom_.cylinders <= 0)
 	return std::nullopt;
-      const Sector& sect(sectors_[lba]);
-      DFS::SectorBuffer buf;
-      std::copy(sect.data.begin(), sect.data.end(), buf.begin());
-      return buf;
+      if (lba >= static_cast<unsigned long>(geom_.cylinders) * geom_.sectors)
+	return std::nullopt;
+      // Find the sector by its address rather than by its position
+      // in sectors_: if a sector could not be decoded (and so is
+      // missing from sectors_), the positions of all the later
+      // sectors shift, and we would return some other sector's data.
+      Track::SectorAddress want;
+      want.cylinder = static_cast<unsigned char>(lba / geom_.sectors);
+      want.head = static_cast<unsigned char>(side_);
+      want.record = static_cast<unsigned char>(lba % geom_.sectors);
+      for (const Sector& sect : sectors_)
+	{
+	  if (sect.address == want)
+	    {
+	      DFS::SectorBuffer buf;
+	      std::copy(sect.data.begin(), sect.data.end(), buf.begin());
+	      return buf;
+	    }
+	}
+      return std::nullopt;
     }
 
     std::string description() const override
